@@ -280,7 +280,7 @@ func checkCase(c Case, rec *evid.Rec) error {
 
 // heavy draws a valid position loaded with promoted material (9 queens, 10 rooks ...).
 func heavy(t *rapid.T) refchess.Pos {
-	for attempt := 0; attempt < 6; attempt++ {
+	for attempt := 0; attempt < 30; attempt++ {
 		var p refchess.Pos
 		p.EP = -1
 		free := rapid.Permutation([]int{0, 1, 2, 3, 4, 5, 6, 7, 8, 9, 10, 11, 12, 13, 14, 15, 16, 17, 18, 19, 20, 21, 22, 23, 24, 25, 26, 27, 28, 29, 30, 31, 32, 33, 34, 35, 36, 37, 38, 39, 40, 41, 42, 43, 44, 45, 46, 47, 48, 49, 50, 51, 52, 53, 54, 55, 56, 57, 58, 59, 60, 61, 62, 63}).Draw(t, "squares")
@@ -315,8 +315,18 @@ func heavy(t *rapid.T) refchess.Pos {
 			return p
 		}
 	}
-	return refchess.MustFEN("QQQQQQQQ/Q6k/8/8/8/8/8/K7 w - - 0 1")
+	return heavyFallback
 }
+
+// heavyFallback is a valid position with ten knights, used when the draws above keep producing check configurations
+// that no game can reach.
+var heavyFallback = func() refchess.Pos {
+	p := refchess.MustFEN("NNNNNNNN/NN6/8/8/8/8/8/K6k w - - 0 1")
+	if err := p.Valid(); err != nil {
+		panic("harness: invalid fallback position: " + err.Error())
+	}
+	return p
+}()
 
 var hostile = []string{
 	"", " ", "/", "8", "8/8/8/8/8/8/8/8", "8/8/8/8/8/8/8/8 ", "8/8/8/8/8/8/8/8 w", "8/8/8/8/8/8/8/8 w ", "8/8/8/8/8/8/8/8 w -", "8/8/8/8/8/8/8/8 w - ",
